@@ -203,13 +203,9 @@ theorem C14_import_once (e : Env) (accept : List Name → Bool) (roots : List (L
   unfold importedModules
   exact List.length_filterMap_le _ _
 
-/-- **C14_module_name_has_package** — every name the `--module` patterns see is an imported dotted
-name: it starts with the package of the search path the file was found under (C08 applies the
-patterns to this name). -/
-theorem C14_module_name_has_package (e : Env) (roots : List (List Name × Tree)) (pkgs : List (List Name))
-    (p m : List Name) (h : m ∈ moduleNames e roots pkgs p) :
-    (yieldPkg e roots pkgs p).isPrefixOf m = true := by
-  unfold moduleNames at h
+theorem moduleNamesWith_prefix (e : Env) (roots : List (List Name × Tree)) (pkgs : List (List Name))
+    (pkg p m : List Name) (h : m ∈ moduleNamesWith e roots pkgs pkg p) : pkg.isPrefixOf m = true := by
+  unfold moduleNamesWith at h
   simp only at h
   obtain ⟨r, _, hr⟩ := List.mem_filterMap.1 h
   split at hr
@@ -222,6 +218,102 @@ theorem C14_module_name_has_package (e : Env) (roots : List (List Name × Tree))
       simp only [Option.map_some, Option.some.injEq] at hr
       subst hr
       simp [List.append_assoc]
+
+/-- **C14_module_name_has_package** — every name the `--module` patterns see is an imported dotted
+name: it starts with the package of the search path the file was found under (C08 applies the
+patterns to this name). -/
+theorem C14_module_name_has_package (e : Env) (roots : List (List Name × Tree)) (pkgs : List (List Name))
+    (p m : List Name) (h : m ∈ moduleNames e roots pkgs p) :
+    (yieldPkg e roots pkgs p).isPrefixOf m = true :=
+  moduleNamesWith_prefix e roots pkgs _ p m h
+
+/-! ### `--package` -/
+
+theorem testDirsAux_spec (pre : List ((List Name × Tree) × List Name)) :
+    ∀ (ds seen : List (List Name)),
+      (∀ r ∈ testDirsAux pre seen ds, r.1.1 ∈ ds ∧ r.1.1 ∉ seen) ∧ ((testDirsAux pre seen ds).map (·.1.1)).Nodup
+  | [], seen => by simp [testDirsAux]
+  | d :: ds, seen => by
+    rw [testDirsAux]
+    by_cases hs : seen.contains d = true
+    · rw [if_pos hs]
+      obtain ⟨h1, h2⟩ := testDirsAux_spec pre ds seen
+      exact ⟨fun r hr => ⟨List.mem_cons_of_mem _ (h1 r hr).1, (h1 r hr).2⟩, h2⟩
+    · rw [if_neg hs]
+      have skip : (∀ r ∈ testDirsAux pre seen ds, r.1.1 ∈ d :: ds ∧ r.1.1 ∉ seen) ∧
+          ((testDirsAux pre seen ds).map (·.1.1)).Nodup := by
+        obtain ⟨h1, h2⟩ := testDirsAux_spec pre ds seen
+        exact ⟨fun r hr => ⟨List.mem_cons_of_mem _ (h1 r hr).1, (h1 r hr).2⟩, h2⟩
+      split
+      · split
+        · obtain ⟨h1, h2⟩ := testDirsAux_spec pre ds (d :: seen)
+          refine ⟨?_, ?_⟩
+          · intro r hr
+            rcases List.mem_cons.1 hr with rfl | hr
+            · exact ⟨by simp, by simpa using hs⟩
+            · have := h1 r hr
+              exact ⟨List.mem_cons_of_mem _ this.1, fun hh => this.2 (List.mem_cons_of_mem _ hh)⟩
+          · simp only [List.map_cons, List.nodup_cons]
+            refine ⟨?_, h2⟩
+            intro hh
+            obtain ⟨r, hr, e⟩ := List.mem_map.1 hh
+            exact (h1 r hr).2 (by rw [e]; simp)
+        · exact skip
+      · exact skip
+
+/-- **C14_package_once** — with `-s`, each package directory is walked at most once, however often it
+is named, and only directories of the named packages are walked. -/
+theorem C14_package_once (roots : List (List Name × Tree)) (pkgs : List (List Name)) (ds : List (List Name)) :
+    ((testDirs roots pkgs (some ds)).map (·.1.1)).Nodup ∧ ∀ r ∈ testDirs roots pkgs (some ds), r.1.1 ∈ ds := by
+  obtain ⟨h1, h2⟩ := testDirsAux_spec (prefixes roots pkgs) ds []
+  exact ⟨h2, fun r hr => (h1 r hr).1⟩
+
+theorem dedup_sub : ∀ (seen l : List (List Name)), ∀ p ∈ dedup seen l, p ∈ l
+  | _, [], p, h => by simp [dedup] at h
+  | seen, q :: qs, p, h => by
+    rw [dedup] at h
+    split at h
+    · exact List.mem_cons_of_mem _ (dedup_sub seen qs p h)
+    · rcases List.mem_cons.1 h with rfl | h
+      · simp
+      · exact List.mem_cons_of_mem _ (dedup_sub _ qs p h)
+
+/-- **C14_package_restricts** — with `-s`, every file that is loaded lies inside a directory of one of
+the named packages: modules outside `--package` are never imported. -/
+theorem C14_package_restricts (e : Env) (roots : List (List Name × Tree)) (pkgs : List (List Name))
+    (ds : List (List Name)) (p : List Name) (h : p ∈ findTestFilesS e roots pkgs (some ds)) :
+    ∃ d ∈ ds, d.isPrefixOf p = true := by
+  unfold findTestFilesS findTestFiles at h
+  have h' := dedup_sub _ _ p h
+  obtain ⟨r, hr, hp⟩ := List.mem_flatMap.1 h'
+  obtain ⟨q, _, rfl⟩ := List.mem_map.1 hp
+  obtain ⟨rr, hrr, rfl⟩ := List.mem_map.1 hr
+  exact ⟨rr.1.1, (C14_package_once roots pkgs ds).2 rr hrr, by simp⟩
+
+/-- without `-s` the walk starts at the search paths: all theorems above apply to `findTestFilesS` -/
+theorem findTestFilesS_none (e : Env) (roots : List (List Name × Tree)) (pkgs : List (List Name))
+    (hl : roots.length = pkgs.length) : findTestFilesS e roots pkgs none = findTestFiles e roots := by
+  unfold findTestFilesS testDirs
+  simp only
+  rw [List.map_fst_zip (by omega)]
+
+theorem importedModulesS_none (e : Env) (accept : List Name → Bool) (roots : List (List Name × Tree))
+    (pkgs : List (List Name)) (hl : roots.length = pkgs.length) :
+    importedModulesS e accept roots pkgs none = importedModules e accept roots pkgs := by
+  unfold importedModulesS importedModules moduleNamesS moduleNames yieldPkgS
+  rw [findTestFilesS_none e roots pkgs hl]
+  unfold testDirs
+  simp only
+  rw [List.map_fst_zip (by omega), List.map_snd_zip (by omega)]
+
+/-- with `-s` as well a module is imported only under a name that passes `--module`, at most once per file -/
+theorem C14_import_gate_S (e : Env) (accept : List Name → Bool) (roots : List (List Name × Tree))
+    (pkgs : List (List Name)) (pd : Option (List (List Name))) (m : List Name)
+    (h : m ∈ importedModulesS e accept roots pkgs pd) :
+    accept m = true ∧ ∃ p ∈ findTestFilesS e roots pkgs pd, m ∈ moduleNamesS e roots pkgs pd p := by
+  unfold importedModulesS at h
+  obtain ⟨p, hp, hm⟩ := List.mem_filterMap.1 h
+  exact ⟨List.find?_some hm, p, hp, List.mem_of_find?_eq_some hm⟩
 
 /-- the facts the walk relies on, from the source -/
 theorem C14_ignore_folders : Facts.ignoreFolders = [".git", "__pycache__", "node_modules"] ∧
